@@ -970,11 +970,90 @@ func (g *Gen) expr(s *srt, env []binding, depth int) *Node {
 	return n
 }
 
+// fragInt generates an int-valued program inside the fragment the Lean model evaluates (C21's VM model,
+// C22's Simplify model): add-ints, pairs, lambdas (nested, shadowing, called directly), partial
+// applications, with an occasional ill-typed or mis-counted argument. env = lambda parameters in scope.
+func (g *Gen) fragInt(env []string, d int) *Node {
+	r := g.R
+	if d <= 0 || r.Chance(1, 4) {
+		if len(env) > 0 && r.Bool() {
+			return S(env[r.Intn(len(env))])
+		}
+		if r.Chance(1, 6) {
+			return I(intEdges[r.Intn(len(intEdges))])
+		}
+		return I(r.Intn(20) - 5)
+	}
+	sub := func() *Node { return g.fragInt(env, d-1) }
+	switch r.Intn(12) {
+	case 0, 1, 2:
+		return F("add-ints", sub(), sub())
+	case 3:
+		return F("first", F("pair", sub(), g.fragAny(env, d-1)))
+	case 4:
+		return F("second", F("pair", g.fragAny(env, d-1), sub()))
+	case 5, 6: // a lambda literal called on the spot
+		p := g.param()
+		if len(env) > 0 && r.Chance(1, 8) {
+			p = env[r.Intn(len(env))] // shadowing
+		}
+		return C(L([]string{p}, g.fragInt(append(append([]string{}, env...), p), d-1)), sub())
+	case 7: // partial application of a global, then the rest
+		return C(F("add-ints", sub()), sub())
+	case 8: // a two-parameter lambda applied in two steps (trailing parameter first)
+		p, q := g.param(), g.param()
+		body := g.fragInt(append(append([]string{}, env...), p, q), d-1)
+		return C(C(L([]string{p, q}, body), sub()), sub())
+	case 9: // a function value passed through a pair
+		return C(F("first", F("pair", S("add-ints"), I(0))), sub(), sub())
+	case 10: // ill-typed or mis-counted on purpose
+		switch r.Intn(4) {
+		case 0:
+			return F("add-ints", sub(), Str("x"))
+		case 1:
+			return F("add-ints", sub(), sub(), sub())
+		case 2:
+			return F("first", sub())
+		default:
+			return C(sub(), sub())
+		}
+	default: // a query builder's result where an int is wanted / as a whole result
+		return F("add-ints", sub(), F("first", F("pair", sub(), F("keyed", Str("k")))))
+	}
+}
+
+func (g *Gen) fragAny(env []string, d int) *Node {
+	r := g.R
+	switch r.Intn(6) {
+	case 0:
+		return Str([]string{"a", "#highway", "primary", "", "point"}[r.Intn(5)])
+	case 1:
+		return F("tagged", Str("#highway"), Str([]string{"primary", "path"}[r.Intn(2)]))
+	case 2:
+		return F("and", F("keyed", Str("#building")), QL(QOr(QKeyed("a"), QAnd(QKeyed("b"), QTagged("k", "v")))))
+	case 3:
+		return F("typed", Str([]string{"point", "area", "nope"}[r.Intn(3)]), F("keyed", Str("name")))
+	default:
+		return g.fragInt(env, d)
+	}
+}
+
 // Program generates one request expression: a call of a uniformly chosen table function in half of
 // the cases (so every function is a root equally often), an expression of a random sort otherwise.
 func (g *Gen) Program() *Node {
 	r := g.R
 	depth := 1 + r.Intn(4)
+	if r.Chance(1, 12) {
+		g.note("model-fragment")
+		g.note("lambda")
+		for _, n := range []string{"add-ints", "pair", "first", "second"} {
+			g.use(n)
+		}
+		if r.Chance(1, 5) {
+			return g.fragAny(nil, 2+r.Intn(3))
+		}
+		return g.fragInt(nil, 2+r.Intn(4))
+	}
 	switch r.Intn(10) {
 	case 0, 1, 2, 3, 4:
 		f := table[r.Intn(len(table))]
@@ -1001,7 +1080,15 @@ func (g *Gen) Program() *Node {
 			args[i] = g.expr(&srt{k: sAny}, nil, depth-1)
 		}
 		g.note("lambda-call")
-		return C(g.lambda(k, nil, nil, nil, depth), args...)
+		np := k
+		if r.Chance(1, 6) { // more or fewer parameters than arguments
+			np = k + []int{-1, 1, 1, 2}[r.Intn(4)]
+			if np < 0 {
+				np = 0
+			}
+			g.note("lambda-call-arity")
+		}
+		return C(g.lambda(np, nil, nil, nil, depth), args...)
 	default:
 		return g.expr(&srt{k: sortKind(r.Intn(int(nSorts))), arity: -1, key: &srt{k: sAny}, val: &srt{k: sAny}}, nil, depth)
 	}
